@@ -486,3 +486,57 @@ def consistent_edges(fn, e, pol):
             return True
         return not (fn.text(f[0]) == txt and f[1] != pol)
     return ok
+
+
+def canon(fn, i, pmap=None):
+    """canonical text of an expression with parameters replaced by $k (identity by position, not by name)"""
+    if pmap is None:
+        pmap = {d: "$%d" % k for k, d in enumerate(fn.pids)}
+    i = fn.strip(i)
+    n = fn.nodes[i]
+    k = n["k"]
+    if k == "DeclRefExpr":
+        return pmap.get(n["d"], n["n"])
+    if k == "MemberExpr":
+        return canon(fn, n["c"][0], pmap) + ("->" if n["arrow"] else ".") + n["fld"]
+    if k in ("BinaryOperator", "CompoundAssignOperator"):
+        a, b = canon(fn, n["c"][0], pmap), canon(fn, n["c"][1], pmap)
+        op = n["op"]
+        if op in ("==", "!=", "+", "*", "&", "|", "&&", "||") and b < a:
+            a, b = b, a
+        elif op in (">", ">="):
+            a, b, op = b, a, SWAP[op]
+        return "(%s %s %s)" % (a, op, b)
+    if k == "UnaryOperator":
+        return n["op"] + canon(fn, n["c"][0], pmap)
+    if k == "CallExpr":
+        return (n.get("callee") or canon(fn, n["fn"], pmap)) + "(" + ", ".join(canon(fn, a, pmap) for a in n["args"]) + ")"
+    if k == "ConditionalOperator":
+        return "(%s ? %s : %s)" % (canon(fn, n["cond"], pmap), canon(fn, n["then"], pmap), canon(fn, n["else"], pmap))
+    if k == "ArraySubscriptExpr":
+        return canon(fn, n["c"][0], pmap) + "[" + canon(fn, n["c"][1], pmap) + "]"
+    if "cv" in n:
+        return str(n["cv"])
+    return fn.text(i)
+
+
+def dnf(fn, i, neg=False):
+    """disjunctive normal form of a boolean expression over && || ! : frozenset of frozensets of (atom, polarity)"""
+    i = fn.strip(i)
+    n = fn.nodes[i]
+    if n["k"] == "BinaryOperator" and n["op"] in ("&&", "||"):
+        is_and = (n["op"] == "&&") != neg
+        a, b = dnf(fn, n["c"][0], neg), dnf(fn, n["c"][1], neg)
+        if is_and:
+            return frozenset(x | y for x in a for y in b)
+        return a | b
+    if n["k"] == "UnaryOperator" and n["op"] == "!":
+        return dnf(fn, n["c"][0], not neg)
+    c = cmp_parts(fn, i)
+    if c is not None and c[0] in ("==", "!="):
+        pol = (c[0] == "==") != neg
+        a, b = canon(fn, c[1]), canon(fn, c[2])
+        if b < a:
+            a, b = b, a
+        return frozenset([frozenset([("%s == %s" % (a, b), pol)])])
+    return frozenset([frozenset([(canon(fn, i), not neg)])])
